@@ -628,6 +628,7 @@ class Aggregate:
         self.sim_seconds = 0.0
         self.samples = []
         self.digests = {}
+        self.step_digests = {}
         self.seeds = {}
         self.run_wall = 0.0
         self.configs = collections.Counter()
@@ -642,6 +643,8 @@ class Aggregate:
         j = res.get("job")
         self.seeds[j] = res.get("seed")
         self.digests[j] = (res.get("schedule_digest"), res.get("result_digest"))
+        if res.get("step_digests") is not None:
+            self.step_digests[j] = (res.get("status"), res.get("step_digests"))
         for k, v in (res.get("faults") or {}).items():
             self.faults[k] += v
         for k, v in (res.get("probes") or {}).items():
